@@ -138,6 +138,9 @@ func SweepV4(r *Report, prop string, table V4Table, report bool) {
 			hi = n
 		}
 		var ties, nontrivial int64
+		if r.TooMany() {
+			return
+		}
 		for idx := lo; idx < hi; idx++ {
 			c := spec.V4ClassFromIndex(idx)
 			key, exp, obs, k := v4CheckClass(c)
